@@ -30,6 +30,8 @@ pub const O_RELOC: u32 = 1 << 8;
 pub const O_DEC_CONTENTS: u32 = 1 << 9;
 /// cross-process double execution (the parent deals a second, spliced execution to another worker)
 pub const O_XPROC: u32 = 1 << 10;
+/// transitions are run under alternating parameter sets of the list (an existing map must ignore them)
+pub const O_ALT_PARAMS: u32 = 1 << 11;
 
 pub const JOB_A_CONFIG: u8 = 10;
 pub const JOB_A_EXPAND: u8 = 11;
@@ -603,10 +605,12 @@ impl AWorker {
                     _ => vec![],
                 };
                 let mut dirty = true;
-                for s in sessions {
+                for (si, s) in sessions.into_iter().enumerate() {
                     if !begin(io, skip) {
                         continue;
                     }
+                    // read-only sessions also run under the other parameter sets of the list
+                    let p0 = cfg.params[si % cfg.params.len()];
                     if dirty {
                         clear_dir(&self.dir_obs);
                         let _ = image.write(&self.dir_obs, MAP_NAME);
@@ -745,7 +749,7 @@ impl AWorker {
         }
         let (ki, vj) = cfg.op(idx);
         let key = &cfg.keys[ki];
-        let p0 = cfg.params[0];
+        let p0 = if cfg.oracles & O_ALT_PARAMS != 0 && !image.is_empty() { cfg.params[(idx + image.key.len() / 8) % cfg.params.len()] } else { cfg.params[0] };
         let (db, mut m) = match open_map::<T>(&dir, MAP_NAME, &p0) {
             Out::Ok(x) => x,
             other => {
